@@ -10,10 +10,21 @@ for rp in sorted(glob.glob(os.path.join(ROOT, "seeded", "*", "replay-C*.json")))
     prop = re.search(r"replay-(C\d\d)\.json", rp).group(1)
     if not d.get("header") or not d.get("ops") or d.get("kind") == "special" or d.get("attributes", {}).get("engine"):
         continue
-    hdr = d["header"].split()
-    hdr[1] = "seeded-%s-%s" % (sid, prop)
+    # a crash replay can hold several histories (the batch that brought the process down): one corpus file each
+    parts = [[d["header"]]]
+    for o in d["ops"]:
+        if o.startswith("# "):
+            parts.append([o])
+        else:
+            parts[-1].append(o)
+    if len(parts) > 4:
+        continue   # a whole batch, not a minimised input
     os.makedirs(os.path.join(ROOT, "corpus", prop), exist_ok=True)
-    out = os.path.join(ROOT, "corpus", prop, "seeded-%s.hist" % sid)
-    open(out, "w").write(" ".join(hdr) + "\n" + "\n".join(d["ops"]) + "\n")
-    n += 1
+    for i, part in enumerate(parts):
+        hdr = part[0].split()
+        suf = "" if len(parts) == 1 else "-%d" % i
+        hdr[1] = "seeded-%s-%s%s" % (sid, prop, suf)
+        out = os.path.join(ROOT, "corpus", prop, "seeded-%s%s.hist" % (sid, suf))
+        open(out, "w").write(" ".join(hdr) + "\n" + "\n".join(part[1:]) + "\n")
+        n += 1
 print(n, "corpus histories written")
